@@ -683,12 +683,12 @@ pub fn run(run: &Run) -> i32 {
         };
         for m in m2(2, 4) {
             for k in 1..4 {
-                work.push((Case { m: m.clone(), mname: format!("2x4:{}", m.alist_like()), order: scrambled(&m, k) }, a7.clone()));
+                work.push((Case { m: m.clone(), mname: format!("2x4:{}", m.alist_like()), order: scrambled(&m, k) }, if run.thorough() { a7.clone() } else { a5.clone() }));
             }
         }
         for m in m2(3, 4) {
             for k in if run.thorough() { vec![1, 2, 3] } else { vec![1, 3] } {
-                work.push((Case { m: m.clone(), mname: format!("3x4:{}", m.alist_like()), order: scrambled(&m, k) }, if run.thorough() { a7.clone() } else { a5.clone() }));
+                work.push((Case { m: m.clone(), mname: format!("3x4:{}", m.alist_like()), order: scrambled(&m, k) }, if run.thorough() { a7.clone() } else { a3.clone() }));
             }
         }
         if run.thorough() {
